@@ -91,6 +91,10 @@ func genCase(t *rapid.T) (Case, *env.Env) {
 	if min := 2*sd/1000 + 1; cfg.TsbdS < min {
 		cfg.TsbdS, cfg.HasTsbd = min, true
 	}
+	if rapid.IntRange(0, 3).Draw(t, "timesubs?") == 0 {
+		// generated subtitle adaptation sets must be split like every other set
+		cfg.Extra = append(cfg.Extra, strings.Split(rapid.SampledFrom([]string{"timesubsstpp_en", "timesubswvtt_en,sv", "timesubsstpp_en,sv/timesubswvtt_en"}).Draw(t, "timesubs"), "/")...)
+	}
 	c := Case{Target: tg, MPD: rapid.SampledFrom(names).Draw(t, "mpd"), Cfg: cfg, Continuous: rapid.Bool().Draw(t, "cont")}
 	var compatible, incompatible []int
 	for pph := 1; pph <= 3600; pph++ {
@@ -418,6 +422,9 @@ func TestC06(t *testing.T) {
 		}
 		if c.ContFirst {
 			cls = append(cls, "continuous-before-periods")
+		}
+		if strings.Contains(strings.Join(c.Cfg.Extra, "/"), "timesubs") {
+			cls = append(cls, "generated-subtitles")
 		}
 		run.Eval(cls...)
 		run.Sample(map[string]any{"asset": c.Target.Name(), "mpd": c.MPD, "url_parts": c.Cfg.Parts(), "pph": c.PPH, "continuous": c.Continuous, "now_ms": c.NowMS, "stop_s": c.StopS, "periods": inf.periods, "segments_mapped": inf.mapped})
